@@ -187,12 +187,14 @@ Section Model.
     else let d := rmax (sq b - (three * a) * df0) zero in
          ((- b) + osqrt O d) / (three * a).
 
-  (* fuel = max_iterations + 1 loop bodies are allowed, the next one panics *)
+  (* fuel = max_iterations + 1 loop bodies are allowed; when the test still asks for another one the search
+     gives up and stays at the current point: step 0, objective value f0 (repair 78b374f; it used to panic).
+     The result type is kept an option (always `Some`) so that a panic elsewhere could still be `None`. *)
   Fixpoint bt_loop (P : bt_params) (phi : T -> T) (f0 df0 : T) (fuel : nat) (first : bool) (a1 a2 fx0 fx1 : T)
     : option (T * T) :=
     if (f0 + (bt_c1 P * a2) * df0) <? fx1 then
       match fuel with
-      | 0%nat => None
+      | 0%nat => Some (zero, f0)
       | S k =>
           let a_tmp := if negb (bt_third P) || first then bt_quad f0 df0 a2 fx1
                        else bt_cubic (bt_eps P) f0 df0 a1 a2 fx0 fx1 in
